@@ -379,9 +379,110 @@ def run_builder(pid, tier, seed):
     return 1 if new else 0
 
 
+# ======================================================================================================
+# C20  viewer graph description
+# ======================================================================================================
+
+def viewer_case(d, tmp, repeat=1):
+    """build the DAG from a real source module, generate the description `repeat` times on ONE
+    GraphConfigImpl object; one case per generated description"""
+    import types
+    from harness import decls
+    if 'importlib_resources' not in sys.modules:
+        sys.modules['importlib_resources'] = types.ModuleType('importlib_resources')   # not installed; only used by build_static
+    from ml_pipeline_viewer.visualization.dag import GraphConfigImpl
+    res, dag = decls.build(d, tmp)
+    if dag is None:
+        return []
+    before = decls.export_dag(dag, d)
+    impl = GraphConfigImpl(dag)
+    out = []
+    for k in range(repeat):
+        cfg = impl.generate(name='verif', verbose_name='Verif', node_colors={'processor': '#ffffff'})
+        dct = cfg.as_dict()
+        try:
+            json.loads(json.dumps(dct))
+            json_ok = True
+        except (TypeError, ValueError):
+            json_ok = False
+        after = decls.export_dag(dag, d)
+        rename = {}
+        if d.get('unnamed_switch'):
+            rename = {raw: nm for raw, nm in zip(sorted(str(n) for n in dag.graph.nodes), [None] * 0)}
+
+        def nm(x):
+            return decls.short(x)
+        # unnamed switch ids are random: use the same normalisation as the graph export
+        ren = {}
+        if d.get('unnamed_switch'):
+            import re
+            count = {}
+            for n, data in dag.graph.nodes(data=True):
+                if data.get('is_switch') and re.match(r'^switch__[0-9a-f]{8}$', str(n)):
+                    outs = [(decls.short(v), ed.get('kwarg_name')) for _, v, ed in dag.graph.out_edges(n, data=True)]
+                    key = 'switch__?%s.%s' % outs[0] if outs else 'switch__?orphan'
+                    count[key] = count.get(key, 0) + 1
+                    ren[str(n)] = key if count[key] == 1 else '%s#%d' % (key, count[key])
+
+        def nid(x):
+            return ren.get(str(x), decls.short(x))
+        nodes = []
+        for n in dct['nodes']:
+            data = n.get('data')
+            nodes.append([nid(n['id']), bool(n['is_virtual']), bool(n['is_generic']), str(n.get('type')),
+                          data is not None,
+                          str(data['name']) if data else '-',
+                          ('null' if data['verbose_name'] is None else str(data['verbose_name'])) if data else '-',
+                          ('null' if data['doc'] is None else str(data['doc'])) if data else '-'])
+        edges = [['%s->%s' % (nid(e['source']), nid(e['target'])) if e['id'] == '%s->%s' % (e['source'], e['target']) else str(e['id']),
+                  nid(e['source']), nid(e['target'])] for e in dct['edges']]
+        out.append({'id': '%s|gen%d' % (d['name'], k), 'd': decls.to_tla(d), 'nodes': nodes, 'edges': edges,
+                    'types': sorted(str(x) for x in dct['node_types']) or ['-'], 'json_ok': json_ok, 'pure': before == after})
+    return out
+
+
+def run_c20(tier, seed):
+    t0 = time.time()
+    dsets = builder_decl_sets(tier, seed)
+    tmp = tempfile.mkdtemp(prefix='verif_decl_')
+    cases = []
+    info = {}
+    try:
+        for k, d in enumerate(dsets):
+            for c in viewer_case(d, tmp, repeat=3 if k % 4 == 0 else 1):
+                c['id'] = '%s#%d' % (c['id'], len(cases))
+                cases.append(c)
+                info[c['id']] = d
+    finally:
+        shutil.rmtree(tmp, ignore_errors=True)
+        for m in [m for m in sys.modules if m.startswith('verif_decl_')]:
+            del sys.modules[m]
+    import concurrent.futures
+    verdicts = {}
+    states = 0
+    parts = [cases[i::8] for i in range(8)]
+    with concurrent.futures.ThreadPoolExecutor(8) as pool:
+        for v, st in pool.map(lambda part: tlc.run_batch('ViewerTrace', {'cases': part}, len(part)) if part else ({}, {}), parts):
+            verdicts.update(v)
+            states += st.get('distinct', 0)
+    from harness import decls
+    new = report('C20', verdicts, lambda cid: {'decls': info[cid], 'source': decls.emit(info[cid])}, lambda cid, c, v: cid, 'viewer')
+    write_evidence('C20', tier, seed, 'translation_validation', {
+        'programs': len(cases), 'disagreements_checked': sum(1 for v in verdicts.values() if v),
+        'states': states, 'transitions': states,
+        'samples': [{'id': cases[0]['id'], 'nodes': cases[0]['nodes'][:4], 'edges': cases[0]['edges'][:4]}],
+    }, t0, new, ['importlib_resources (absent in the sandbox) is stubbed in sys.modules; it is only used by build_static',
+                 'declaration modules are real source files so that inspect-based fields are produced as in production'])
+    print('C20 %s: %d generated descriptions of %d DAGs validated by TLC against Viewer.tla, %d new violation(s), %.1fs'
+          % (tier, len(cases), len(dsets), new, time.time() - t0))
+    return 1 if new else 0
+
+
 def run(pid, tier, seed):
     if pid in ('C15', 'C16'):
         return run_builder(pid, tier, seed)
+    if pid == 'C20':
+        return run_c20(tier, seed)
     fn = {'C18': run_c18}.get(pid)
     if fn is None:
         print('unknown property', pid)
